@@ -117,6 +117,14 @@ pub struct WorkerResult {
     pub wall_s: f64,
 }
 
+/// worker stack: ArrayBuf<300000> and a few copies of it fit, 70 000 nested calls do not
+pub const STACK_BYTES: usize = if cfg!(debug_assertions) { 48 << 20 } else { 64 << 20 };
+
+/// true in the unoptimised build of the simulator (`cargo build` without `--release`)
+pub fn unoptimised_build() -> bool {
+    cfg!(debug_assertions)
+}
+
 pub fn scale_runs(n: u64) -> u64 {
     match std::env::var("VERIF_RUNS_SCALE").ok().and_then(|s| s.parse::<f64>().ok()) {
         Some(f) if f > 0.0 => ((n as f64) * f).max(1.0) as u64,
@@ -400,9 +408,10 @@ pub fn check(prop: &dyn Prop, o: &CheckOpts) -> CheckReport {
     let directed = prop.directed(o.tier);
     let total = directed.len() as u64 + scale_runs(prop.runs(o.tier));
     let nshards = o.workers.min(total.max(1));
+    let label = if unoptimised_build() { format!("{}/unoptimised-build", prop.id()) } else { prop.id().to_string() };
     println!(
         "[{}] tier={} seed={} runs={} ({} directed + {} seeded) workers={}",
-        prop.id(),
+        label,
         o.tier.name(),
         o.seed,
         total,
@@ -640,10 +649,11 @@ pub fn check(prop: &dyn Prop, o: &CheckOpts) -> CheckReport {
             "scenario": min_scn,
             "original_detail": f.violation.detail,
             "original_scenario": f.scenario,
+            "build": if unoptimised_build() { "unoptimised" } else { "release" },
         });
         let rdir = root.join("replays");
         let _ = std::fs::create_dir_all(&rdir);
-        let rpath = rdir.join(format!("{}-{}-{}.json", prop.id(), o.seed, f.idx));
+        let rpath = rdir.join(format!("{}-{}-{}{}.json", prop.id(), o.seed, f.idx, if unoptimised_build() { "-unopt" } else { "" }));
         std::fs::write(&rpath, serde_json::to_vec_pretty(&replay).expect("HARNESS: ser replay")).expect("HARNESS: write replay");
         violation_lines.push(format!("VIOLATION property={} replay={}", prop.id(), rpath.display()));
         println!("  violation [{}] in run {} (x{} in batch): {}", sig, f.idx, sig_counts.get(&sig).copied().unwrap_or(1), truncate(&v2.detail, 600));
@@ -660,6 +670,20 @@ pub fn check(prop: &dyn Prop, o: &CheckOpts) -> CheckReport {
     for p in &zero_probes {
         println!("PROBE-ZERO: {} (the workload did not reach this branch in this batch)", p);
     }
+
+    // the unoptimised build repeats a share of the batch (totality properties only)
+    let share = prop.unoptimised_share(o.tier);
+    let mut unopt_summary = serde_json::Value::Null;
+    let mut unopt_exit = 0;
+    if share > 0.0 && o.write_evidence && !unoptimised_build() {
+        let (v, e) = run_unoptimised(prop, o, share, &outdir);
+        unopt_summary = v;
+        unopt_exit = e;
+        if e == 2 {
+            return CheckReport { exit: 2, outdir };
+        }
+    }
+    let summary_out = std::env::var("VERIF_SUMMARY_OUT").ok().filter(|_| unoptimised_build());
 
     if o.write_evidence {
         let mut faults = BTreeMap::new();
@@ -710,8 +734,22 @@ pub fn check(prop: &dyn Prop, o: &CheckOpts) -> CheckReport {
                 "violation_signatures": sig_counts,
                 "components_real_code": COMPONENTS_REAL,
                 "components_stub": COMPONENTS_STUB,
+                "build": if unoptimised_build() { "unoptimised (opt-level 0, debug assertions, 48 MiB worker stack)" } else { "release (opt-level 3, overflow checks, 64 MiB worker stack)" },
+                "unoptimised_build_batch": unopt_summary,
             }
         });
+        if let Some(p) = &summary_out {
+            // child of a release check: hand the summary to the parent instead of writing evidence
+            let c = &ev["coverage"];
+            let sum = serde_json::json!({
+                "evaluations": c["evaluations"], "distinct_nontrivial": c["distinct_nontrivial"], "distinct_histories": c["distinct_histories"],
+                "logical_steps": c["logical_steps"], "directed_corpus_runs": c["directed_corpus_runs"], "seeded_runs": c["seeded_runs"],
+                "faults_fired": c["faults_fired"], "probes": c["probes"], "process_crashes": c["process_crashes"],
+                "violation_signatures": c["violation_signatures"], "violations": unknown, "wall_s": wall, "build": c["build"],
+                "share_of_seeded_runs": std::env::var("VERIF_RUNS_SCALE").unwrap_or_default(),
+            });
+            std::fs::write(p, serde_json::to_vec_pretty(&sum).expect("HARNESS: ser summary")).expect("HARNESS: write summary");
+        } else {
         let edir = root.join("evidence");
         let _ = std::fs::create_dir_all(&edir);
         std::fs::write(
@@ -719,10 +757,11 @@ pub fn check(prop: &dyn Prop, o: &CheckOpts) -> CheckReport {
             serde_json::to_vec_pretty(&ev).expect("HARNESS: ser evidence"),
         )
         .expect("HARNESS: write evidence");
+        }
     }
     println!(
         "[{}] {} runs, {} distinct non-trivial, {} distinct histories, {} steps, {:.1}s wall, {} violation signature(s) ({} known)",
-        prop.id(),
+        label,
         evaluations,
         fp.len(),
         hs.len(),
@@ -738,9 +777,52 @@ pub fn check(prop: &dyn Prop, o: &CheckOpts) -> CheckReport {
         let _ = std::fs::remove_dir_all(&outdir);
     }
     CheckReport {
-        exit: if unknown > 0 { 1 } else { 0 },
+        exit: if unknown > 0 || unopt_exit == 1 { 1 } else { 0 },
         outdir,
     }
+}
+
+/// the sibling binary built without `--release`
+fn unoptimised_binary() -> Option<PathBuf> {
+    let exe = std::env::current_exe().ok()?;
+    let p = exe.parent()?.parent()?.join("debug").join("sml-sim");
+    if p.exists() {
+        Some(p)
+    } else {
+        None
+    }
+}
+
+/// Run `share` of the batch in the unoptimised build; its VIOLATION lines go straight to our
+/// stdout, its summary comes back through a file.
+fn run_unoptimised(prop: &dyn Prop, o: &CheckOpts, share: f64, outdir: &Path) -> (serde_json::Value, i32) {
+    let bin = match unoptimised_binary() {
+        Some(b) => b,
+        None => {
+            eprintln!("HARNESS ERROR: the unoptimised build of the simulator (target/debug/sml-sim) is missing; run `cargo build --offline` in the sim directory (the check script does)");
+            return (serde_json::Value::Null, 2);
+        }
+    };
+    let outer = std::env::var("VERIF_RUNS_SCALE").ok().and_then(|s| s.parse::<f64>().ok()).filter(|f| *f > 0.0).unwrap_or(1.0);
+    let summary = outdir.join("unoptimised-summary.json");
+    let st = Command::new(bin)
+        .args(["check", prop.id(), o.tier.name()])
+        .env("VERIF_RUNS_SCALE", format!("{}", share * outer))
+        .env("VERIF_SEED", format!("{}", o.seed))
+        .env("VERIF_WORKERS", format!("{}", o.workers))
+        .env("VERIF_SUMMARY_OUT", &summary)
+        .stdin(Stdio::null())
+        .status();
+    let code = match st {
+        Ok(s) => s.code().unwrap_or(2),
+        Err(_) => 2,
+    };
+    let v = std::fs::read(&summary).ok().and_then(|b| serde_json::from_slice(&b).ok()).unwrap_or(serde_json::Value::Null);
+    if code != 0 && code != 1 || v.is_null() {
+        eprintln!("HARNESS ERROR: the unoptimised-build batch ended with status {} (summary present: {})", code, !v.is_null());
+        return (v, 2);
+    }
+    (v, code)
 }
 
 pub fn truncate(s: &str, n: usize) -> String {
@@ -761,6 +843,8 @@ pub fn truncate(s: &str, n: usize) -> String {
 
 #[derive(Deserialize)]
 struct ReplayFile {
+    #[serde(default)]
+    build: String,
     property: String,
     class: String,
     clause: String,
@@ -801,7 +885,16 @@ pub fn replay(path: &Path) -> i32 {
             return 2;
         }
     };
-    let exe = std::env::current_exe().expect("HARNESS: current_exe");
+    let mut exe = std::env::current_exe().expect("HARNESS: current_exe");
+    if rf.build == "unoptimised" && !unoptimised_build() {
+        match unoptimised_binary() {
+            Some(b) => exe = b,
+            None => {
+                eprintln!("HARNESS ERROR: {} was recorded by the unoptimised build, which is missing", path.display());
+                return 2;
+            }
+        }
+    }
     let mut child = Command::new(exe)
         .arg("exec-one")
         .arg(path)
